@@ -35,6 +35,10 @@ type C18Script struct {
 	// "bytes" = bytes.Reader over the data, "bufio" = bufio.Reader over the SimReader,
 	// "bufio_peeked" = the same after a Peek filled its buffer. "" = the SimReader itself.
 	Wrap string `json:"wrap,omitempty"`
+	// Repeat k>0: every packet whose index i has i%k == k-1 is byte for byte the packet before
+	// it (a duplicate packet as ISO 13818-1 allows, a run of identical stuffing): still a
+	// packet of its own, delivered like any other
+	Repeat int `json:"repeat,omitempty"`
 }
 
 type c18 struct{}
@@ -53,7 +57,7 @@ func (c18) Info() core.Info {
 			"after an injected reader error the sink log may be any prefix covering at least the packets fully delivered before the failing Read; it must never contain a misaligned, duplicated or reordered packet",
 			"a sink that returns a short count without error is outside the statement: only integrity and order of what is delivered are checked after it",
 		},
-		RequiredProbes: []string{"frag_unaligned", "one_byte", "data_with_eof", "partial_tail", "sink_err_first", "sink_err_mid", "reader_err_mid_packet", "via_io_copy", "write_not_multiple", "write_multi_packet", "closer", "adapter_reused", "adapter_reused_after_partial_tail", "reader_is_writerto", "bufio_reader_smaller_than_a_packet", "sink_err_full_count", "reader_fails_with_unexpected_eof", "sink_fails_with_eof_value", "more_than_4gib_in_one_call", "sink_type_has_own_write_method"},
+		RequiredProbes: []string{"frag_unaligned", "one_byte", "data_with_eof", "partial_tail", "sink_err_first", "sink_err_mid", "reader_err_mid_packet", "via_io_copy", "write_not_multiple", "write_multi_packet", "closer", "adapter_reused", "adapter_reused_after_partial_tail", "reader_is_writerto", "bufio_reader_smaller_than_a_packet", "stream_with_repeated_packets", "sink_err_full_count", "reader_fails_with_unexpected_eof", "sink_fails_with_eof_value", "more_than_4gib_in_one_call", "sink_type_has_own_write_method"},
 	}
 }
 
@@ -76,6 +80,9 @@ func c18Data(s *C18Script) ([]packet.Packet, []byte) {
 	var data []byte
 	for i := range src {
 		src[i] = c18Packet(i, s.Salt)
+		if s.Repeat > 0 && i > 0 && i%s.Repeat == s.Repeat-1 {
+			src[i] = src[i-1]
+		}
 		data = append(data, src[i][:]...)
 	}
 	if s.Tail > 0 {
@@ -109,6 +116,9 @@ func (c18) Gen(r *core.Rand, tier string) interface{} {
 	}
 	if s.Adapter == "IOWriteCloser" && r.Chance(1, 4) {
 		s.Sink.CloseErr = true
+	}
+	if r.Chance(1, 6) {
+		s.Repeat = r.Pick(1, 2, 2, 3)
 	}
 	if r.Chance(1, 3) {
 		s.Again = r.Pick(1, 2, 3)
@@ -265,6 +275,9 @@ func (c18) Exec(script interface{}, c *core.Ctx) {
 		return
 	}
 	src, data := c18Data(s)
+	if s.Repeat > 0 && s.Packets >= 2 && s.Mode != "huge" {
+		c.Probe("stream_with_repeated_packets")
+	}
 	orig := append([]byte(nil), data...)
 	sink := parties.NewSimSink(s.Sink, c)
 	var w io.Writer
@@ -316,16 +329,22 @@ func (c18) Exec(script interface{}, c *core.Ctx) {
 	integrity := func() bool {
 		last := -1
 		for k := range sink.Log {
+			// the stamp names the first source position with these bytes; a repeated packet
+			// (script field Repeat) has the same bytes at the following position(s)
 			idx := int(sink.Log[k][9])<<16 | int(sink.Log[k][10])<<8 | int(sink.Log[k][11])
 			if idx >= len(src) || sink.Log[k] != src[idx] {
 				c.Fail("unmodified", "delivered_bytes_not_a_source_packet", k, "one of the source packets")
 				return false
 			}
-			if idx <= last {
+			j := idx
+			for j <= last && j+1 < len(src) && src[j+1] == src[idx] {
+				j++
+			}
+			if j <= last {
 				c.Fail("order", "duplicate_or_reordered_delivery", idx, last+1)
 				return false
 			}
-			last = idx
+			last = j
 		}
 		return true
 	}
@@ -691,6 +710,11 @@ func (c18) Shrink(script interface{}) []interface{} {
 		n.Cuts = append([]int(nil), s.Cuts...)
 		n.Reads = append([]parties.ReadOp(nil), s.Reads...)
 		return &n
+	}
+	if s.Repeat > 0 {
+		n := cp()
+		n.Repeat = 0
+		out = append(out, n)
 	}
 	for _, p := range []int{0, 1, 2, s.Packets / 2, s.Packets - 1} {
 		if p >= 0 && p < s.Packets {
